@@ -24,6 +24,7 @@ type c16Req struct {
 	Stall bool   `json:"stall"` // the backend (node 2) does not answer this request / one fragment of it in time
 	Near  bool   `json:"near"`  // not stalled itself but served by the stalling node (queued behind the stall)
 	Moved bool   `json:"moved"` // (stalled requests) the stalling node first answers -MOVED to node 1, which then stalls
+	Late  bool   `json:"late"`  // (moved requests) the -MOVED itself comes only after the timeout has expired
 }
 
 type c16Case struct {
@@ -71,6 +72,7 @@ func c16Gen(t *rapid.T) c16Case {
 		case 0, 1:
 			r.Stall = true
 			r.Moved = rapid.IntRange(0, 2).Draw(t, "moved") == 0
+			r.Late = r.Moved && rapid.Bool().Draw(t, "late")
 			anyStall = true
 		case 2:
 			r.Near = true
@@ -89,7 +91,10 @@ func c16Build(c *c16Case) ([]Req, map[string]bool) {
 	return reqs, stalled
 }
 
+var c16Late = map[string]bool{}
+
 func c16Build2(c *c16Case) ([]Req, map[string]bool, map[string]bool) {
+	c16Late = map[string]bool{}
 	moved := map[string]bool{}
 	stalled := map[string]bool{}
 	var reqs []Req
@@ -110,6 +115,9 @@ func c16Build2(c *c16Case) ([]Req, map[string]bool, map[string]bool) {
 			stalled[string(k)] = true
 			if r.Moved {
 				moved[string(k)] = true
+				if r.Late {
+					c16Late[string(k)] = true
+				}
 			}
 		}
 		if r.Kind == "mget" {
@@ -134,6 +142,7 @@ func c16Exec(c *c16Case) []Discrepancy {
 
 func c16Run(f *Fixture, c *c16Case) []Discrepancy {
 	reqs, stalled, moved := c16Build2(c)
+	late := c16Late
 	gates := &gateSet{}
 	f.Cluster.ResetLog()
 	f.Cluster.SetHandler(func(req *fakecluster.Request) fakecluster.Action {
@@ -141,7 +150,11 @@ func c16Run(f *Fixture, c *c16Case) []Discrepancy {
 		for _, k := range keysOf(req.Name, req.Args) {
 			if moved[string(k)] && req.Node == 2 {
 				// the slot has moved: redirect to node 1, which will then keep the client waiting
-				return fakecluster.Action{Reply: []byte(fmt.Sprintf("-MOVED %d %s\r\n", refmodel.KeySlot(k), f.Cluster.Nodes[1].Addr))}
+				a := fakecluster.Action{Reply: []byte(fmt.Sprintf("-MOVED %d %s\r\n", refmodel.KeySlot(k), f.Cluster.Nodes[1].Addr))}
+				if late[string(k)] {
+					a.Delay = time.Duration(c.TimeoutMs+60) * time.Millisecond
+				}
+				return a
 			}
 			if stalled[string(k)] {
 				a.Gate = gates.add(req.Seq)
@@ -269,6 +282,9 @@ func c16Classify(c *c16Case) (bool, []string) {
 		if r.Moved {
 			nt = true
 			cls = append(cls, "stall-after-redirect")
+		}
+		if r.Late {
+			cls = append(cls, "redirection-arrives-after-the-timeout")
 		}
 	}
 	cls = append(cls, fmt.Sprintf("timeout-%d", c.TimeoutMs), fmt.Sprintf("pipeline-%d", len(c.Reqs)))
